@@ -58,7 +58,7 @@ def replay_face(e, backend, real_t):
     put_line(u, start, k, cs["w"][1])
     vel = np.zeros((D,) + shape)
     vel[k - 1] = u
-    mk = (lambda a: shim.frac_array(a)) if backend == "exact" else (lambda a: np.array(a, dtype=real_t))
+    mk = (lambda a: shim.frac_array(a)) if backend == "exact" else (lambda a: kernels.operand(a, real_t))
     out = mk(np.zeros(shape))
     rt = np.float64 if backend == "exact" else real_t
     one = Fraction(1) if backend == "exact" else real_t(1)
@@ -87,7 +87,7 @@ def replay_sum(e, backend, real_t):
     D = len(shape)
     kind = cs["kind"]
     c0 = tuple(i - 1 for i in cs["c0"])
-    mk = (lambda a: shim.frac_array(a)) if backend == "exact" else (lambda a: np.array(a, dtype=real_t))
+    mk = (lambda a: shim.frac_array(a)) if backend == "exact" else (lambda a: kernels.operand(a, real_t))
     rt = np.float64 if backend == "exact" else real_t
     three = Fraction(3) if backend == "exact" else real_t(3)
     eps = 0 if backend == "exact" else 64 * float(np.finfo(real_t).eps)
